@@ -120,6 +120,20 @@ impl TableBootstrapInner {
 
         self.state_tx.send(new_state).unwrap_or(());
 
+        #[cfg(feature = "verif")]
+        crate::verif::record(
+            self.this_node_id,
+            crate::verif::EventKind::BootstrapState {
+                state: match new_state {
+                    State::AwaitStart => "AwaitStart",
+                    State::InitialContact => "InitialContact",
+                    State::Bootstrapping => "Bootstrapping",
+                    State::Bootstrapped => "Bootstrapped",
+                    State::IdleBeforeRebootstrap => "IdleBeforeRebootstrap",
+                },
+            },
+        );
+
         tracing::info!(
             "{}: TableBootstrap state change {:?} -> {:?} (from_line: {})",
             self.ip_version,
